@@ -40,7 +40,6 @@ TIMEOUT_S = 60.0
 CHUNK = 200
 
 BRUTE_MAX_N = 7          # c04.decide enumerates n! arrangements
-CONFLICT_IMPL_MAX = 10 ** 9   # is_single_crossing_conflict_sets is always compared (0.3 s at n = 40, m = 12)
 
 
 # ------------------------------------------------------------------------------------------------ generators
@@ -366,6 +365,9 @@ def generate(tier, seed):
         flags = [flags[j] for j in idx]
         out.append(case("c04.core", [alts, orders, mults(rng, len(orders), True), S, flags],
                         gen="neg-core", large=1, n=len(orders), m=m))
+    for k, cs_ in enumerate(out):
+        if cs_["tags"].get("gen") or k % 8 == 0:
+            cs_["tags"]["helper"] = 1
     return out
 
 
@@ -387,62 +389,82 @@ def impl(c):
         seq = [[int(a) for a in o] for o in seq]
     else:
         seq = []
-    cs = -1
-    if len(orders) <= CONFLICT_IMPL_MAX:
-        inst2 = ordinal_instance([(strict(o), mu) for o, mu in zip(orders, mult)], data_type="soc", alts=alts)
-        cv = SCm.is_single_crossing_conflict_sets(inst2)
-        if not isinstance(cv, bool):
-            return {"crash": "is_single_crossing_conflict_sets returned %r" % (cv,)}
-        cs = int(cv)
-    return [int(verdict), seq, cs]
+    inst2 = ordinal_instance([(strict(o), mu) for o, mu in zip(orders, mult)], data_type="soc", alts=alts)
+    cv = SCm.is_single_crossing_conflict_sets(inst2)
+    if not isinstance(cv, bool):
+        return {"crash": "is_single_crossing_conflict_sets returned %r" % (cv,)}
+    cs = int(cv)
+    # the private verification pass on the stored order: measured only (not an observable of the property; a
+    # missing / changed helper is never an alarm)
+    oc = -1
+    if c["tags"].get("helper"):
+        fn = getattr(SCm, "_is_ordered_profile_single_crossing", None)
+        if fn is not None:
+            try:
+                hv = fn([tuple(o) for o in orders])
+                if isinstance(hv, bool):
+                    oc = int(hv)
+            except Exception:
+                oc = -1
+    return [int(verdict), seq, cs, oc]
+
+
+def _plan(c, r):
+    """named oracle requests for a case (the judge and stats address the answers by name)"""
+    pl = c["payload"]
+    alts, orders = pl[0], pl[1]
+    plan = []
+    # reference verdict
+    if c["op"] == "c04.core":
+        plan.append(("core", "c04.core", [alts, orders, pl[3], pl[4]]))
+    elif len(orders) <= BRUTE_MAX_N:
+        plan.append(("decide", "c04.decide", [alts, orders]))
+    # second reference (polynomial, proved equivalent): the only one for n > 7, else a cross-check of the model
+    plan.append(("cdecide", "c04.cdecide", [alts, orders]))
+    # witness
+    if isinstance(r, list) and r[0] == 1:
+        plan.append(("check", "c04.check", [alts, orders, r[1]]))
+    # mirror of the verification pass vs the sequence checker on the stored order (theorem ordered_check_correct)
+    if c["tags"].get("helper"):
+        plan.append(("ordered", "c04.ordered", [orders]))
+        plan.append(("seqcheck", "c04.seqcheck", [alts, orders]))
+    return plan
 
 
 def oracle_requests(c, r):
-    pl = c["payload"]
-    alts, orders = pl[0], pl[1]
-    reqs = []
-    # reference verdict
-    if c["op"] == "c04.core":
-        reqs.append(("c04.core", [alts, orders, pl[3], pl[4]]))
-    elif len(orders) <= BRUTE_MAX_N:
-        reqs.append(("c04.decide", [alts, orders]))
-    else:
-        reqs.append(("c04.cdecide", [alts, orders]))
-    # second reference (polynomial, proved equivalent) — cross-check of the extracted model itself
-    if reqs[0][0] != "c04.cdecide":
-        reqs.append(("c04.cdecide", [alts, orders]))
-    # witness
-    if isinstance(r, list) and r[0] == 1:
-        reqs.append(("c04.check", [alts, orders, r[1]]))
-    return reqs
+    return [(op, payload) for _, op, payload in _plan(c, r)]
+
+
+def _named(c, r, mres):
+    return {k: v for (k, _, _), v in zip(_plan(c, r), mres)}
 
 
 def judge(c, r, mres):
-    mres = list(mres)
-    if len(c["payload"][1]) > BRUTE_MAX_N and c["op"] != "c04.core":
-        mres.insert(1, mres[0])          # the only reference is c04.cdecide
-    ref = mres[0]
-    cref = mres[1]
+    m = _named(c, r, mres)
+    cref = m["cdecide"]
     if c["op"] == "c04.core":
-        if ref != 1:
+        if m["core"] != 1:
             return {"kind": "broken-correspondence",
                     "reason": "generator error: the embedded core is not refuted by the model"}
         expected = 0
     else:
-        expected = ref
+        expected = m.get("decide", cref)
     if cref != expected:
         return {"kind": "broken-correspondence",
                 "reason": "the two proved references disagree (decide/core says SC=%d, cdecide %d)" % (expected, cref)}
-    verdict, seq, cs = r
+    if "ordered" in m and m["ordered"] != m["seqcheck"]:
+        return {"kind": "broken-correspondence",
+                "reason": "model: ordered_check and sc_seq_check disagree on the stored order (ordered_check_correct)"}
+    verdict, seq, cs = r[0], r[1], r[2]
     if verdict != expected:
         return ("is_single_crossing answers %s, the reference (theorem sc_decide_correct / "
                 "sc_conflict_decide_correct / sc_core_refutes_sound) says %s" % (bool(verdict), bool(expected)))
     if verdict == 1:
-        if mres[2] != 1:
+        if m["check"] != 1:
             return ("is_single_crossing answers True but the returned sequence is rejected by the verified checker "
                     "(sc_witness_check_correct): it must contain every distinct order exactly once and let every "
                     "pair switch at most once; sequence = %r" % (seq,))
-    if cs != -1 and cs != expected:
+    if cs != expected:
         return ("is_single_crossing_conflict_sets answers %s, the reference says %s" % (bool(cs), bool(expected)))
     return None
 
@@ -470,8 +492,12 @@ def stats(c, r, m):
         lab.append("chain-mid tails " + ("equal" if len(set(c["tags"]["tails"].split("/"))) == 1 else "different"))
     if c["tags"].get("storage") == "all":
         lab.append("every storage order, m=%d n=%d" % (mm, n))
-    if isinstance(r, list) and r[2] != -1:
+    if isinstance(r, list):
         lab.append("conflict_sets compared")
+        if r[3] != -1:
+            mm_ = _named(c, r, m)
+            lab.append("info: _is_ordered_profile_single_crossing(stored order) %s sc_seq_check [%s]"
+                       % ("==" if r[3] == mm_.get("seqcheck") else "!=", "accepted" if mm_.get("seqcheck") else "rejected"))
     if any(x > 1 for x in pl[2]):
         lab.append("multiplicities > 1")
     return lab
